@@ -64,3 +64,19 @@ CHECKS['C13'] = dict(
     text='Decides non-interference of the flag, verbatim/ordered/positioned attachment, single attachment, and the restricted-production clause of the printing half. Re-attachment after re-layout is not decided.',
     ref='DESIGN.md section 3 C13',
     note='Trusted: CPython ast, abstract evaluator, action interpreter, definitions model.')
+
+CHECKS['C20'] = dict(
+    technique='static analysis of the definitions table and the indent rule table as data: Indent/Dedent balance on every path, lock-step with braces, position of line breaks in layout sequences, decision tables of the Indentator handlers by abstract evaluation',
+    text='Exhaustive over all 56 definitions and their Optional/Join paths and over the handler decision tables for three indentation strings; walker.process_layouts and the ruletypes token classes are transcribed and digest-guarded (a structural change there stops the check with ANALYSIS-ERROR).',
+    ref='DESIGN.md section 3 C20',
+    note='Trusted: transcription of walker.process_layouts and of the rule-class semantics (digest-guarded), abstract evaluator.')
+CHECKS['C07'] = dict(
+    technique='static analysis: scope-marker balance over definition paths, rule-table shape, def-use of the reserved-word skip set through default arguments, decision tables of Scope/CatchScope bookkeeping by abstract evaluation on abstract scope trees',
+    text='Decides necessary conditions only (marker balance, spelling-only change, reserved-word skip set, composition of the per-scope reserved set). Capture freedom over arbitrary scope trees is NOT decided.',
+    ref='DESIGN.md section 3 C07',
+    note='Narrow claim. Trusted: definitions model, abstract evaluator, ES5 reserved word list.')
+CHECKS['C10'] = dict(
+    technique='static analysis: folded module constants (alphabet, shift, masks) and writer/reader agreement on names, literals and separators',
+    text='Decides canonical alphabet/constants and writer/reader table agreement only. The bijection law over all integers is arithmetic and NOT decided.',
+    ref='DESIGN.md section 3 C10',
+    note='Narrow claim; a necessary condition of canonical form and nothing more.')
